@@ -544,42 +544,212 @@ def _copula_probe(ctx, d, cls, corr):
 
 
 # ------------------------------------------------------------------------------------------------- copula variance matrix (#27)
+class SqrtmRecorder:
+    """records every matrix the constructor hands to scipy.linalg.sqrtm (module attribute patched for the duration)"""
+
+    def __enter__(self):
+        self.args, self.orig = [], scipy.linalg.sqrtm
+
+        def rec(a, *r, **k):
+            self.args.append(np.array(a, dtype=float, copy=True))
+            return self.orig(a, *r, **k)
+        scipy.linalg.sqrtm = rec
+        return self
+
+    def __exit__(self, *exc):
+        scipy.linalg.sqrtm = self.orig
+        return False
+
+
+class PoolRecorder:
+    """the constructor's own process pool (pathos), unchanged, with the results of `apply_async(...).get()` recorded together
+    with the (i, j) they were computed for"""
+
+    def __enter__(self):
+        self.results, self.orig = [], mclc_mod.mp.Pool
+        outer = self
+
+        class Res:
+            def __init__(self, r, args):
+                self.r, self.args = r, args
+
+            def get(self, *a, **k):
+                v = self.r.get(*a, **k)
+                outer.results.append(((int(self.args[0]), int(self.args[1])), float(v)))
+                return v
+
+        class Pool:
+            def __init__(self, *a, **k):
+                self.p = outer.orig(*a, **k)
+
+            def __enter__(self):
+                self.p.__enter__()
+                return self
+
+            def __exit__(self, *e):
+                return self.p.__exit__(*e)
+
+            def apply_async(self, f, args=(), **k):
+                return Res(self.p.apply_async(f, args=args, **k), args)
+        mclc_mod.mp.Pool = Pool
+        return self
+
+    def __exit__(self, *exc):
+        mclc_mod.mp.Pool = self.orig
+        return False
+
+
+class ScriptedVolAdj:
+    """stands for vol_adjustment_ij in the scripted stream: prescribed (dyadic) results, picklable for the pool"""
+
+    def __init__(self, table):
+        self.table = dict(table)
+
+    def __call__(self, i, j, h, levy_model):
+        return self.table[(int(i), int(j))]
+
+
+def matrix_checks(ctx, d, cls, dim, fv, outs_ij, sig, Vs, D, exact, corr=True):
+    """C: the matrices handed to sqrtm against M's assembly of the same results; S: what `variance_matrix_as_built` and
+    `symm_sqrt_cov` state, on the implementation: symmetric, positive semi-definite, diagonal >= sigma², and the factor the
+    simulation uses reproduces it (D·Dᵀ = variance matrix, whichever factorisation is called)"""
+    order = [(i, j) for i in range(dim) for j in range(i, dim)]
+    if not fv and [ij for ij, _ in outs_ij] != order:
+        ctx.fail("oracle", "c04.variance_matrix.order", d, {"what": "vol_adjustment_ij is not evaluated once per pair i <= j in the "
+                 "order the assembly loop consumes", "pairs_evaluated": [list(ij) for ij, _ in outs_ij]}, cls=cls)
+        return None
+    if fv and outs_ij:
+        ctx.fail("oracle", "c04.variance_matrix.order", d, {"what": "finite variation: vol_adjustment_ij evaluated although no small-jump "
+                 "term is added", "pairs_evaluated": [list(ij) for ij, _ in outs_ij]}, cls=cls)
+        return None
+    outs = [v for _, v in outs_ij]
+    if not Vs:
+        ctx.fail("oracle", "c04.variance_matrix.sqrtm", d, {"what": "the constructor did not call scipy.linalg.sqrtm"}, cls=cls)
+        return None
+    V = Vs[-1]
+    if any(not np.array_equal(V, W) for W in Vs):
+        ctx.fail("oracle", "c04.variance_matrix.deterministic", d, {"what": "two constructions of the simulation object of the same chain "
+                 "hand different matrices to sqrtm", "first": Vs[0].tolist(), "last": V.tolist()}, cls=cls)
+        return None
+    mirrors = None
+    if corr:
+        x = [Fraction(ctx.rng.randint(-8, 8), 4) for _ in range(dim)]
+        out = ctx.lean(f"assemble {dim} {1 if fv else 0} {wl(outs)} {wl(sig)} {wl(x)}").split(" ")
+        if out[0] == "bad-op":
+            raise Infra("Drivers/C04 assemble rejected its input")
+        adj, coded, spec, symm, qf = rdll(out[0]), rdll(out[1]), rdll(out[2]), out[3], rd(out[4])
+        if symm != "1" or qf < 0:
+            ctx.fail("proof", "c04.variance_matrix.theorem", d, {"name": "variance_matrix_as_built contradicted by the driver", "symm": symm,
+                                                                  "quadratic_form": str(qf)}, cls=cls)
+            return None
+        mirrors = True
+        for i in range(dim):
+            for j in range(dim):
+                sc = sum((abs(adj[i][k] * adj[j][k]) for k in range(dim)), Fraction(0)) + (fr(sig[i]) ** 2 if i == j else 0)
+                ok = (fr(float(V[i][j])) == coded[i][j]) if exact else close(float(V[i][j]), coded[i][j], scale=max(sc, Fraction(1, 2 ** 200)))
+                if not ok and mirrors:
+                    mirrors = False
+                    ctx.fail("corr", "c04.variance_matrix.model", d, {"name": "Drivers/C04 assemble (adj from the results in loop order, adj·adjᵀ + diag σ²) "
+                             "vs the matrix handed to sqrtm", "entry": [i, j], "impl": float(V[i][j]), "model": str(coded[i][j]),
+                             "results": outs}, cls=cls)
+    top = max(float(np.max(np.abs(V))), 1e-300)
+    asym = float(np.max(np.abs(V - V.T)))
+    if asym > 1e-12 * top:
+        ctx.fail("oracle", "c04.variance_matrix.symmetric", d, {"variance_matrix": V.tolist(), "max_asymmetry": asym}, cls=cls, mirrors_model=mirrors)
+        return mirrors
+    ev = np.linalg.eigvalsh((V + V.T) / 2)
+    if float(ev[0]) < -1e-10 * top:
+        ctx.fail("oracle", "c04.variance_matrix.psd", d, {"variance_matrix": V.tolist(), "smallest_eigenvalue": float(ev[0])}, cls=cls, mirrors_model=mirrors)
+        return mirrors
+    bad = [k for k in range(dim) if not V[k][k] >= sig[k] ** 2 * (1 - 1e-12)]
+    if bad:
+        ctx.fail("oracle", "c04.variance_matrix.diag", d, {"margin": bad[0], "diag": [float(V[k][k]) for k in range(dim)], "sigma": sig}, cls=cls, mirrors_model=mirrors)
+        return mirrors
+    Dc = np.asarray(D)
+    if np.iscomplexobj(Dc) and float(np.max(np.abs(Dc.imag))) > 1e-8 * math.sqrt(top):
+        ctx.fail("oracle", "c04.diffusion_factor", d, {"what": "diffusion matrix is not real", "diffusion_matrix": str(Dc.tolist())[:400]}, cls=cls, mirrors_model=mirrors)
+        return mirrors
+    Dr = np.asarray(Dc.real, dtype=float)
+    dev = float(np.max(np.abs(Dr @ Dr.T - V)))
+    if not dev <= 1e-7 * top:
+        ctx.fail("oracle", "c04.diffusion_factor", d, {"what": "covariance per unit time of the simulated diffusion part, D·Dᵀ, is not the variance "
+                 "matrix the constructor computed", "D_Dt": (Dr @ Dr.T).tolist(), "variance_matrix": V.tolist(), "max_deviation": dev},
+                 cls=cls, mirrors_model=mirrors)
+        return mirrors
+    ctx.branches[f"c04.variance_matrix_checked:d{dim}:{'fv' if fv else 'iv'}"] += 1
+    return mirrors
+
+
 def variance_matrix_probe(ctx, d, corr=True):
-    """independent copula, infinite-variation margins, the real constructor (process pool + nquad): the k-th diagonal entry of
-    diffusion_matrix @ diffusion_matrix.T must be the variance the 1-d chain of margin k adds (sigma_k² + ∫ x² ν_k on the
-    central cell)"""
-    cls = dict(stream="variance_matrix", copula=d["copula"], dimension=2, infinite_variation=True)
+    """the real constructor (process pool + nquad).  C/S of `matrix_checks`; independent copula with infinite-variation margins in
+    addition: the k-th diagonal entry of diffusion_matrix @ diffusion_matrix.T must be the variance the 1-d chain of margin k adds
+    (sigma_k² + ∫ x² ν_k on the central cell)"""
+    dim = d.get("dim", 2)
     margins = [zoo.make_levy(f, p) for f, p in d["margins"]]
-    cm = zoo.make_copula_model(margins, zoo.make_copula(d["copula"]))
-    g, _ = zoo.make_grid("fixed", None, d["h"], nb_of_points=5, dimension=2)
+    cm = zoo.make_copula_model(margins, zoo.make_copula(d["copula"], **d.get("copula_kw", {})))
+    fv = bool(cm.jump_of_finite_variation())
+    cls = dict(stream="variance_matrix", copula=d["copula"], dimension=dim, infinite_variation=not fv)
+    g, _ = zoo.make_grid("fixed", None, d["h"], nb_of_points=5, dimension=dim)
     prod = the_product()
-    mc = MarkovChainLevyCopula(cm, g, SamplingMethod.BINARYSEARCHTREEADAPTED)
-    mc.initialisation(prod)
-    D = np.asarray(mc._path_simulation.diffusion_matrix, dtype=float)
-    V = D @ D.T
-    ctx.count("c04.variance_matrix", d, nontrivial=True, branch=d["copula"])
+    with SqrtmRecorder() as sq, PoolRecorder() as pr:
+        mc = MarkovChainLevyCopula(cm, g, SamplingMethod.BINARYSEARCHTREEADAPTED)
+        n_first = len(pr.results)
+        if d.get("init", True):
+            mc.initialisation(prod)
+    D = np.asarray(mc._path_simulation.diffusion_matrix)
+    ctx.count("c04.variance_matrix", d, nontrivial=True, branch=f"{d['copula']}:d{dim}:{'fv' if fv else 'iv'}")
+    sig = [float(m.diffusion_coefficient()) for m in margins]
+    mirrors = matrix_checks(ctx, d, cls, dim, fv, pr.results[:n_first], sig, sq.args, D, exact=False, corr=corr)
+    if d["copula"] != "independent" or fv:
+        return
+    V = np.asarray(D.real, dtype=float) @ np.asarray(D.real, dtype=float).T
     want = []
     for k, m in enumerate(margins):
         g1, _ = zoo.make_grid("fixed", None, d["h"], nb_of_points=5, dimension=1)
         want.append(float(MarkovChainProcess(m, SamplingMethod.INVERSION, g1).equivalent_diffusion_coefficient) ** 2)
-    # C: as coded, with the small-jump covariances the real vol_adjustment_ij returns (recomputed in-process)
-    mirrors = None
-    if corr:
-        mt = mc.model
-        adj = [[float(vol_adjustment_ij(min(i, j), max(i, j), float(g.h), mt)) for j in range(2)] for i in range(2)]
-        sig = [float(m.diffusion_coefficient()) for m in margins]
-        out = ctx.lean(f"varmat {wll(adj)} {wl(sig)}").split(" ")
-        coded = rdll(out[0])
-        mirrors = all(abs(float(coded[i][j]) - V[i][j]) <= 1e-9 * max(1.0, abs(V[i][j])) + 1e-12 for i in range(2) for j in range(2))
-        if not mirrors:
-            ctx.fail("corr", "c04.variance_matrix.model", d, {"name": "Drivers/C04 varianceMatrixCoded vs diffusion_matrix @ diffusion_matrix.T",
-                                                            "impl": V.tolist(), "model": [[float(x) for x in r] for r in coded]}, cls=cls)
-            return
-    bad = [k for k in range(2) if not abs(V[k][k] - want[k]) <= 2e-2 * want[k] + 2e-3]      # nquad runs with epsabs = 1e-3
+    bad = [k for k in range(dim) if not abs(V[k][k] - want[k]) <= 2e-2 * want[k] + 2e-3]      # nquad runs with epsabs = 1e-3
     if bad:
-        ctx.fail("oracle", "c04.copula_variance", d, {"margin": bad[0], "diag_of_D_Dt": [V[0][0], V[1][1]],
-                                                    "variance_of_the_1d_chain_of_the_margin": want, "diffusion_matrix": D.tolist()},
+        ctx.fail("oracle", "c04.copula_variance", d, {"margin": bad[0], "diag_of_D_Dt": [float(V[k][k]) for k in range(dim)],
+                                                    "variance_of_the_1d_chain_of_the_margin": want, "diffusion_matrix": D.real.tolist()},
                  cls=cls, mirrors_model=mirrors)
+
+
+SCRIPT_MARGINS = {True: [("hem", dict(sigma=0.0)), ("merton", dict(sigma=0.125)), ("hem", dict(sigma=0.25)), ("merton", dict(sigma=0.5))],
+                  False: [("cgmy", dict(c=0.5, g=10.0, m=12.0, y=1.5)), ("hem", dict(sigma=0.25)), ("cgmy", dict(c=0.3, g=8.0, m=9.0, y=1.25)),
+                          ("merton", dict(sigma=0.5))]}
+
+
+def scripted_matrix_case(rng):
+    dim = rng.choice([2, 3, 3, 4])
+    fv = rng.random() < 0.25
+    pool = SCRIPT_MARGINS[fv]
+    margins = [pool[0]] + [rng.choice(pool) for _ in range(dim - 1)]       # pool[0] fixes the variation class of the copula
+    table = [[i, j, rng.randint(-16, 16) / 16 if i != j else rng.randint(0, 16) / 16] for i in range(dim) for j in range(i, dim)]
+    return dict(stream="variance_matrix_scripted", dim=dim, margins=margins, table=table, h=rng.choice([0.25, 0.125]))
+
+
+def scripted_matrix_probe(ctx, d, corr=True):
+    """the assembly / symmetrisation / adj·adjᵀ + σ² / sqrtm logic of `MCLevyCopulaSimulation.__init__` in d = 2, 3, 4 on prescribed
+    dyadic results: the real class is constructed (real margins and copula model, the real process pool) with `vol_adjustment_ij`
+    replaced by a table; finite variation: no result may be asked for"""
+    import types
+    dim = d["dim"]
+    margins = [zoo.make_levy(f, p) for f, p in d["margins"]]
+    cm = zoo.make_copula_model(margins, zoo.make_copula("independent"))
+    fv = bool(cm.jump_of_finite_variation())
+    cls = dict(stream="variance_matrix_scripted", dimension=dim, infinite_variation=not fv)
+    table = {(int(i), int(j)): float(v) for i, j, v in d["table"]}
+    stub = types.SimpleNamespace(model=cm, grid=types.SimpleNamespace(h=d["h"]))
+    orig = mclc_mod.vol_adjustment_ij
+    mclc_mod.vol_adjustment_ij = ScriptedVolAdj(table)
+    try:
+        with SqrtmRecorder() as sq, PoolRecorder() as pr:
+            sim = mclc_mod.MCLevyCopulaSimulation(process=stub)
+    finally:
+        mclc_mod.vol_adjustment_ij = orig
+    ctx.count("c04.variance_matrix_scripted", d, nontrivial=True, branch=f"d{dim}:{'fv' if fv else 'iv'}")
+    sig = [float(m.diffusion_coefficient()) for m in margins]
+    matrix_checks(ctx, d, cls, dim, fv, pr.results, sig, sq.args, sim.diffusion_matrix, exact=True, corr=corr)
 
 
 # ------------------------------------------------------------------------------------------------------------ entry points
@@ -590,13 +760,22 @@ def run(ctx, corr=True):
         synthetic_probe(ctx, synthetic_case(rng), corr=corr)
     for _ in range(ctx.n(16, 200)):
         copula_probe(ctx, copula_case(rng), corr=corr)
-    vm = [dict(stream="variance_matrix", copula="independent", h=0.1,
-               margins=[("cgmy", dict(c=0.5, g=10.0, m=12.0, y=1.5)), ("cgmy", dict(c=0.3, g=8.0, m=9.0, y=1.3))])]
+    c15, c13, c12 = ("cgmy", dict(c=0.5, g=10.0, m=12.0, y=1.5)), ("cgmy", dict(c=0.3, g=8.0, m=9.0, y=1.3)), ("cgmy", dict(c=0.4, g=6.0, m=7.0, y=1.2))
+    vm = [dict(stream="variance_matrix", copula="independent", h=0.1, margins=[c15, c13]),
+          dict(stream="variance_matrix", copula="clayton", copula_kw=dict(theta=0.7, eta=0.3), h=0.1, margins=[c15, c13]),
+          dict(stream="variance_matrix", copula="independent", h=0.1, margins=[("hem", dict(sigma=0.25)), ("merton", {})])]
     if ctx.thorough:
         vm += [dict(stream="variance_matrix", copula="independent", h=rng.choice([0.2, 0.05]),
-                    margins=[("cgmy", zoo.draw_params(rng, "cgmy", 1.5)), ("cgmy", zoo.draw_params(rng, "cgmy", 1.5))]) for _ in range(6)]
+                    margins=[("cgmy", zoo.draw_params(rng, "cgmy", 1.5)), ("cgmy", zoo.draw_params(rng, "cgmy", 1.5))]) for _ in range(4)]
+        vm += [dict(stream="variance_matrix", copula="clayton", copula_kw=dict(theta=rng.choice([0.3, 1.0, 2.5]), eta=rng.choice([0.1, 0.5, 0.9])),
+                    h=rng.choice([0.2, 0.1]), margins=[("cgmy", zoo.draw_params(rng, "cgmy", 1.5)), ("hem", zoo.draw_params(rng, "hem"))])
+               for _ in range(2)]
+        vm += [dict(stream="variance_matrix", copula="independent", h=0.1, dim=3, init=False, margins=[c15, c13, c12])]
     for d in vm:
-        guarded(ctx, d, dict(stream="variance_matrix", dimension=2), variance_matrix_probe, ctx, d, corr=corr)
+        guarded(ctx, d, dict(stream="variance_matrix", dimension=d.get("dim", 2)), variance_matrix_probe, ctx, d, corr=corr)
+    for _ in range(ctx.n(12, 120)):
+        d = scripted_matrix_case(rng)
+        guarded(ctx, d, dict(stream="variance_matrix_scripted", dimension=d["dim"]), scripted_matrix_probe, ctx, d, corr=corr)
     ctx.notes.append(f"largest deviations: mean oracle {MAXDEV['mean']:.2e} (tolerance {MEAN_REL}), eqDiff² vs quadrature {MAXDEV['eqdiff']:.2e} "
                      f"(1e-8), variance gap / bound {MAXDEV['var_ratio']:.3f} (<= 1), independent-copula margin mean {MAXDEV['margin_indep']:.2e}")
 
@@ -607,6 +786,9 @@ def search(ctx):
         synthetic_probe(ctx, synthetic_case(ctx.rng), corr=False)
     for _ in range(ctx.n(20, 100)):
         copula_probe(ctx, copula_case(ctx.rng), corr=False)
+    for _ in range(ctx.n(40, 200)):
+        d = scripted_matrix_case(ctx.rng)
+        guarded(ctx, d, dict(stream="variance_matrix_scripted", dimension=d["dim"]), scripted_matrix_probe, ctx, d, corr=False)
 
 
 def replay(ctx, rec):
@@ -630,5 +812,7 @@ def replay(ctx, rec):
         copula_probe(ctx, dict(d, margins=[tuple(m) for m in d["margins"]]))
     elif s == "variance_matrix":
         variance_matrix_probe(ctx, dict(d, margins=[tuple(m) for m in d["margins"]]))
+    elif s == "variance_matrix_scripted":
+        scripted_matrix_probe(ctx, dict(d, margins=[tuple(m) for m in d["margins"]]))
     else:
         raise Infra(f"unknown replay record stream {s!r}")
